@@ -133,11 +133,18 @@ Section RevBlock.
     (* the result's members as positions *)
     unfold getn. replace (n <? 0) with false by (symmetry; apply Z.ltb_ge; lia).
     rewrite (iter1024_fwd idz (brev B) 0 n) by (now rewrite brev_length).
-    replace (map (fun m => idz (m + 0)) (take n (members (brev B)))) with (take n (members (brev B)))
-      by (rewrite <- (map_id (take n (members (brev B)))) at 1; apply map_ext; intros m; unfold idz; lia).
+    rewrite (iter1024_rev idz (brev B) 0 n) by (now rewrite brev_length).
+    assert (Hid : forall l : list Z, map (fun m => idz (m + 0)) l = l)
+      by (intros l; rewrite <- (map_id l) at 2; apply map_ext; intros m; unfold idz; lia).
+    rewrite !Hid.
     rewrite !gn_spec by (auto; reflexivity). cbn [bits].
     rewrite (first_n_sound Z.ltb Z.lt ltb_of (complement ms) n (members (brev B)) En (members_sorted _)).
     2:{ intros j. rewrite in_members, in_complement. split.
+        - intros Hm. pose proof (member_range _ _ Hm) as Hr. split; [exact Hr|]. rewrite HmRB in Hm by exact Hr. now apply negb_true_iff.
+        - intros [Hr Hm]. rewrite HmRB by exact Hr. now rewrite Hm. }
+    cbn [andb].
+    rewrite (first_n_sound Z.gtb Z.gt gtb_of (complement ms) n (rev (members (brev B))) En (sorted_rev _ (members_sorted _))).
+    2:{ intros j. rewrite <- in_rev, in_members, in_complement. split.
         - intros Hm. pose proof (member_range _ _ Hm) as Hr. split; [exact Hr|]. rewrite HmRB in Hm by exact Hr. now apply negb_true_iff.
         - intros [Hr Hm]. rewrite HmRB by exact Hr. now rewrite Hm. }
     cbn [andb].
